@@ -208,7 +208,16 @@ fn simplint_cfg(rng: &mut Rng) -> g::Cfg {
 }
 
 fn redex_rich(rng: &mut Rng) -> fol::Formula {
-    match rng.weighted(&[3, 3, 3, 2, 1]) {
+    match rng.weighted(&[3, 3, 3, 2, 1, 3, 2, 2]) {
+        // the redex shape of each classic rule (all pairs of sorts in the transitive-equality redex),
+        // mixed-sort quantifier blocks, and the families on which the fixpoint loop needs many passes
+        // (kept when the loop stays small: the model gives the classic loop 64 passes)
+        5 => {
+            let rule = *rng.pick(&[simplcls::Rule::Rdn, simplcls::Rule::Sdv, simplcls::Rule::Rqd, simplcls::Rule::Eqs, simplcls::Rule::Ste]);
+            simplcls::formula_for(rng, rule)
+        }
+        6 => super::gentext::mixed_block(rng),
+        7 => crate::ext::clsterm::tame_case(rng),
         0 => {
             let c = simplint_cfg(rng);
             let d = 1 + rng.below(3);
